@@ -593,6 +593,16 @@ Fixpoint reread_from (stk : list string) (ts : list token) : list token :=
 
 Definition reread (ts : list token) : list token := reread_from [] ts.
 
+(** The same for tokens the Encoder writes inside a container element it has
+    written itself (Prop, ResourceType, Include, ...: a field
+    [Raw []RawXMLValue `xml:",any"`]): the container's start tag declares the
+    container's namespace [ns] as the default namespace, and MarshalXML is not
+    told (its [start] argument carries the Go type's name and no namespace). *)
+Definition reread_in (ns : string) (ts : list token) : list token := reread_from [ns] ts.
+
+(** The namespace of the library's containers. *)
+Definition dav_ns : string := "DAV:".
+
 (** * Trees from token streams, and the specification's "same element tree" *)
 
 (** Inverse of [forest_tokens]; [stk] holds the open elements with the
@@ -823,6 +833,14 @@ Definition marshal_agrees (v : raw) (m : res (list token)) : bool :=
   | _, _ => false
   end.
 
+Definition marshal_in_agrees (ns : string) (v : raw) (m : res (list token)) : bool :=
+  match marshal v, m with
+  | Ok l, Ok m' => same_stream (reread_in ns l) m'
+  | Err _, Err _ => true
+  | Panic, Panic => true
+  | _, _ => false
+  end.
+
 (** ** A document captured with xml.Unmarshal *)
 
 Record doc_obs : Type := {
@@ -831,7 +849,9 @@ Record doc_obs : Type := {
   do_read : read_obs;                 (* raw.TokenReader() drained *)
   do_dec : res (list otoken);         (* xml.NewTokenDecoder(raw.TokenReader()) read to io.EOF *)
   do_read2 : list otoken * outcome;   (* another raw.TokenReader() drained after that *)
-  do_mar : res (list token)           (* then xml.Marshal(&raw), read with a new xml.Decoder *)
+  do_mar : res (list token);          (* then xml.Marshal(&raw), read with a new xml.Decoder *)
+  do_mar_in : res (list token)        (* then xml.Marshal(&Prop{Raw: {raw}}), read with a new xml.Decoder:
+                                         what stands inside the prop element *)
 }.
 
 (** [ts]: the tokens encoding/xml's decoder yields for the document, from the
@@ -848,6 +868,7 @@ Definition doc_agrees (ts : list token) (o : doc_obs) : bool :=
           && list_eqb otoken_eqb (fst (do_read2 o)) (fst (drain (decoded_in_place v)))
           && outcome_eqb (snd (do_read2 o)) (snd (drain (decoded_in_place v)))
           && marshal_agrees (decoded_in_place v) (do_mar o)
+          && marshal_in_agrees dav_ns (decoded_in_place v) (do_mar_in o)
       | Some (Err _) => status_eqb (do_status o) StErr
       | Some Panic => status_eqb (do_status o) StPanic
       | None => false
@@ -858,7 +879,7 @@ Definition doc_agrees (ts : list token) (o : doc_obs) : bool :=
 (** The property, on the observation alone: the stream is finite, balanced,
     well nested; the stream, what a decoder makes of it and what xml.Marshal
     writes all denote the tree of the document. *)
-Definition doc_spec_ok (ts : list token) (o : doc_obs) : bool :=
+Definition doc_spec_main (ts : list token) (o : doc_obs) : bool :=
   status_eqb (do_status o) StOk
   && outcome_eqb (ro_outcome (do_read o)) DEof
   && ro_eof_again (do_read o)
@@ -869,9 +890,23 @@ Definition doc_spec_ok (ts : list token) (o : doc_obs) : bool :=
   && match do_dec o with Ok l => same_stream (somes l) ts | _ => false end
   && match do_mar o with Ok m => same_stream m ts | _ => false end.
 
+(** ... also when the value is written out inside one of the library's
+    containers. *)
+Definition doc_spec_in (ts : list token) (o : doc_obs) : bool :=
+  match do_mar_in o with Ok m => same_stream m ts | _ => false end.
+
+Definition doc_spec_ok (ts : list token) (o : doc_obs) : bool :=
+  doc_spec_main ts o && doc_spec_in ts o.
+
 (** Selector of known finding C15/xml-literal-namespace on a document. *)
 Definition doc_kf (ts : list token) : bool :=
   match parse_tree ts with Some t => uses_xml_space t | None => false end.
+
+(** Selector of known finding C15/embedded-no-namespace: the captured element
+    itself is in no namespace (written inside a container it inherits the
+    container's default namespace, and so do its descendants in no namespace). *)
+Definition doc_kf_in (ts : list token) : bool :=
+  match ts with TStart n _ :: _ => str_empty (fst n) | _ => false end.
 
 (** ** A malformed document: only the outcome of the capture is compared. *)
 Definition bad_agrees (ts : list token) (st : status) : bool :=
